@@ -2,7 +2,7 @@
 
 Requests are unique tagged tokens:  ('tok', client, seq, plan)  where plan is a tuple of
 (tag, action, arg) triples telling the worker tagged `tag` what to do with this request:
-  ('A', 'fail', None)      call raises Boom(tag, token id)
+  ('A', 'fail', None|cls)  call raises Boom(tag, token id), or the class named by cls (vlib.targets.handler_exc_class)
   ('A', 'sleep', 0.01)     call sleeps
   ('A', 'reject', None)    preprocess raises Reject(tag, token id)
   ('A', 'poison', None)    (batched call) the whole batch raises BatchBoom(tag, ids of the batch)
@@ -156,6 +156,11 @@ class TagWorker(Worker):
                     if a == 'sleep':
                         time.sleep(arg)
                     elif a == 'fail':
+                        if arg:
+                            # user code may raise any class, also the ones the library itself uses for control flow
+                            from .targets import handler_exc_class
+
+                            raise handler_exc_class(arg)(tag, tid(x))  # SITE-MARK-7f3a call
                         raise Boom(tag, tid(x))  # SITE-MARK-7f3a call
                 return (tag, x)
         finally:
